@@ -681,6 +681,31 @@ def shape_A(rng):
     return mk_case("iso", [x, y], A, [(x, tok)], extra + ["cls=A"]), "A"
 
 
+# ------------------------------------------------------------------ shape C: a conjugate extremely close to the value
+def shape_C(rng):
+    """the parameter is a root of  a (t - c)^2 - eps  with a = 2^40 .. 2^60 and a small eps: its two real roots
+    c -+ sqrt(eps/a) differ by 1e-6 .. 1e-9, far below the 2^-20 interval precision, and the leading coefficient
+    dominates the defining polynomial.  The polynomial is positive definite in y times a linear factor in y that
+    depends on the parameter, so the conjugate contributes a spurious candidate root which only the resultant-based
+    zero threshold of the exact sign test can reject."""
+    idx = rng.sample(range(6), 2)
+    x, y = idx
+    X, Y = pvar(x), pvar(y)
+    e = rng.choice([40, 44, 50, 52, 56, 60])
+    a = 2 ** e
+    c = rng.choice([1, 1, 2, -1, 3])
+    eps = rng.choice([3, 3, 5, 7, 2 if e % 2 == 0 else 3, 12])
+    # a t^2 - 2 a c t + a c^2 - eps
+    tok = "r:%d,%d,%d:%d" % (a * c * c - eps, -2 * a * c, a, rng.choice([0, 1]))
+    # (quadratics that contain the parameter, or a second linear factor, cost the exact reference 5 s and more)
+    quad = rng.choice([padd(pmul(Y, Y), pconst(1)), padd(pmul(Y, Y), padd(Y, pconst(1))), padd(pscale(2, pmul(Y, Y)), pconst(3))])
+    la = pconst(rng.choice([1, 1, 2]))
+    lb = rng.choice([pscale(3, X), X, padd(X, pconst(1)), pscale(-2, X), psub(pmul(X, X), pconst(c * c)), padd(pmul(X, X), X)])
+    A = pmul(quad, psub(pmul(la, Y), lb))
+    extra = ["lc=1", "quad=" + ptext(quad), "lin=%s;%s" % (ptext(la), ptext(lb))]
+    return mk_case("iso", [x, y], A, [(x, tok)], extra + ["cls=C"]), "C"
+
+
 def small_enough_D(case):
     main = case.split(" | ")[0].split()
     terms = main[2].split("+")
@@ -754,11 +779,13 @@ def gen_cases(rng, n, op="iso", light=False):
             elif k > 0.86:
                 c, _ = shape_A(rng)
                 ok = True
+            elif k > 0.81 and not light:
+                c, _ = shape_C(rng)
+                ok = True
             elif k < 0.10:
                 c, _ = shape_D(rng)
-                ok = small_enough_D(c) and not light
-                if light:
-                    continue
+                # (C12 repeats the isolation ~20 times per case: only the cheaper ones there)
+                ok = small_enough_D(c) and not (light and ("^7" in c.split()[2] or "^8" in c.split()[2] or "^9" in c.split()[2] or "^10" in c.split()[2]))
             elif k < 0.20 and not light:
                 c, _ = shape_N(rng)
                 ok = True
@@ -777,7 +804,7 @@ def gen_cases(rng, n, op="iso", light=False):
 
 def generate(rng, tier, corpus_only=False):
     # the hand-written boundary cases HAND are in corpus/C11.txt, which every run executes first
-    n = 480 if tier == "quick" else 3600
+    n = 400 if tier == "quick" else 3600
     # op isof: the per-factor root lists against the extracted assembly model (sort / de-duplicate / exit)
     return gen_cases(rng, n) + gen_cases(rng, n // 4, "isof")
 
@@ -802,6 +829,8 @@ def tag(case):
         kind = "Z"
     if " cls=A" in case:
         kind = "A"
+    if " cls=C" in case:
+        kind = "C"
     return "%s-%s-alg%d" % (main[0], kind, nalg)
 
 
@@ -829,7 +858,9 @@ def extra_coverage(cases, couts, mouts):
     """how the model side disposed of the cases: checked / skipped (no exact reference available) / out of fuel"""
     d = {}
     for m in mouts:
-        k = "none" if m is None else ("checked" if m.startswith("CHECK") else m.split()[0].lower())
+        k = "none" if m is None else (("accepted by the VERIFIED checker" if m.startswith("CHECK ok verified") else
+                                       "accepted by the unverified reference only (outside the checker's scope)" if m.startswith("CHECK ok")
+                                       else "rejected") if m.startswith("CHECK") else m.split()[0].lower())
         d[k] = d.get(k, 0) + 1
     roots = {}
     for o in couts:
